@@ -306,6 +306,29 @@ pub fn c05_run(opts: &crate::Opts, out: &mut Out) {
             });
             check(out, "commitment-order", inst.transcript(), &s6, None);
         }
+        // statement fields replaced by values of the right type but of another length or size: a promise list that is
+        // shorter, longer or empty; a parameter set (same bit length, same Pedersen generators) whose capacity is below
+        // the number of commitments
+        {
+            let s9 = stmt_variant(&stmt, |s| { s.minimum_value_promises.pop(); });
+            check(out, "promise-list:shortened", inst.transcript(), &s9, None);
+            let s10 = stmt_variant(&stmt, |s| s.minimum_value_promises.push(None));
+            check(out, "promise-list:extended", inst.transcript(), &s10, None);
+            let s11 = stmt_variant(&stmt, |s| s.minimum_value_promises.push(Some(1)));
+            check(out, "promise-list:extended", inst.transcript(), &s11, None);
+            let s12 = stmt_variant(&stmt, |s| s.minimum_value_promises.clear());
+            check(out, "promise-list:emptied", inst.transcript(), &s12, None);
+            let s14 = stmt_variant(&stmt, |s| { s.commitments.pop(); s.commitments_compressed.pop(); s.minimum_value_promises.pop(); });
+            check(out, "commitment-list:shortened", inst.transcript(), &s14, None);
+            let s15 = stmt_variant(&stmt, |s| { let c = s.commitments[0].clone(); let cc = s.commitments_compressed[0].clone(); s.commitments.push(c); s.commitments_compressed.push(cc); s.minimum_value_promises.push(None); });
+            check(out, "commitment-list:extended", inst.transcript(), &s15, None);
+            if m >= 2 {
+                for c2 in [m / 2, 1] {
+                    let s13 = stmt_variant(&stmt, |s| s.generators = params(n, c2, t));
+                    check(out, "generators:capacity-below-commitments", inst.transcript(), &s13, None);
+                }
+            }
+        }
         // generators: point and/or encoding
         for k in 0..=t {
             for mode in 0..3 {
